@@ -460,11 +460,11 @@ class StageBlock(Block):
             inputs -= hetinputs.outputs
             #internals |= hetinputs.outputs
 
-        self.inputs = inputs
+        # keep any renaming applied by remap()
+        self.inputs = self.M @ inputs
         #self.internals = internals
 
         self.hetinputs = hetinputs
-        # TODO: fix consequences with remap, as in het_block.py
 
         return self
 
